@@ -1897,6 +1897,42 @@ def _c08_harnesses(prop, tier):
     return out
 
 
+def _c08_initial_harnesses(prop):
+    """C08 (native only): the INITIAL VALUE of a branch belongs to the branch - it is evaluated on the branch's own thread,
+    concurrently with its siblings, whatever kind of expression it is (call, binary, unary, cast, parenthesised)"""
+    out = []
+    shapes = [("call", "pv(%d, 0, %d, %du8)"), ("binary", "pv(%d, 0, %d, %du8) + 0u8"), ("unary", "!pv(%d, 0, %d, !%du8)"),
+              ("cast", "pv(%d, 0, %d, %du8) as u8"), ("paren_binary", "(pv(%d, 0, %d, %du8) ^ 0u8)"), ("binary_of_calls", "pv(%d, 0, %d, %du8) | core::convert::identity(0u8)")]
+    for mac in ("join_spawn", "spawn"):
+        for ds in [(1, 1), (2, 2), (1, 2, 2)]:
+            for (sn, shape) in shapes:
+                if mac == "spawn" and ds != (2, 2):
+                    continue
+                n = len(ds)
+                act = lambda s: sum(1 for d in ds if d > s)
+                brs, exp = [], []
+                for i in range(n):
+                    t = (shape % (i, act(0), i)) + " -> |x: u8| x"
+                    exp.append("(%d, 0, %d)" % (i, act(0)))
+                    for s in range(1, ds[i]):
+                        t += " ~-> |x: u8| { probe(%d, %d, %d); x.wrapping_add(1) }" % (i, s, act(s))
+                        exp.append("(%d, %d, %d)" % (i, s, act(s)))
+                    brs.append(t)
+                prog = "%s! { %s }" % (mac, ", ".join(brs))
+                vals = tup("%du8" % (i + ds[i] - 1) for i in range(n))
+                body = "        let me = std::thread::current(); let cid = me.id(); let cname = me.name().map(|s| s.to_string());\n"
+                body += "        let r = %s;\n" % prog
+                body += "        if r != %s { return Err(\"C08: wrong result\".to_string()); }\n" % vals
+                body += "        check_probes(cid, cname, &[%s])\n" % ", ".join(exp)
+                b = "    probe_reset();\n    let run = move || -> Result<(), String> {\n%s    };\n" % body
+                b += "    let res = with_watchdog(move || std::thread::Builder::new().name(\"caller\".into()).spawn(run).unwrap().join().unwrap());\n"
+                b += "    assert!(res.is_some(), \"C08: the macro did not return within 25 s\");\n"
+                b += "    if let Some(Err(m)) = res { panic!(\"{}\", m); }\n"
+                hn = "%s_initial_%s_%s_%s" % (prop.lower(), mac, pname(ds), sn)
+                out.append(Harness(hn, harness_fn(hn, b), prog, note="initial value of kind `%s` records its thread, profile %s" % (sn, ds)))
+    return out
+
+
 def _c18_harnesses(prop, tier):
     """C18 (native only): a panic injected at (branch, step) reaches the caller, nothing of a later step runs, the
     caller is not left blocked - for the sync, thread-spawning, async and tokio-spawning kinds"""
@@ -2494,6 +2530,7 @@ def native_families(pid, tier):
     if pid == "C08":
         out += _c08_harnesses(pid, tier)
         out += _c08_nested_harnesses(pid)
+        out += _c08_initial_harnesses(pid)
     if pid == "C18":
         out += _c18_harnesses(pid, tier)
     if pid == "C09":
